@@ -50,7 +50,7 @@ def check_stage(run, stage, n_items, n_workers):
     queries = [
         ("failure-is-visible", U.exists(lambda s: z3.And(s["pc"] == ts.end_pc, s["raised"] == 0)),
          "a callback raised in a worker but the entry point returns normally"),
-        ("no-hang", U.exists(lambda s: z3.And(z3.Not(U.enabled(s, progress_only=True)), s["pc"] != ts.end_pc)), "a callback raised in a worker and the entry point waits forever"),
+        ("no-hang", (lambda s: z3.And(z3.Not(U.enabled(s, progress_only=True)), s["pc"] != ts.end_pc))(U.final()), "a callback raised in a worker and the entry point waits forever"),
     ]
     for qn, bad, what in queries:
         r, m, dt = U.check(bad)
@@ -132,7 +132,7 @@ def check_walk(run, cfg, n_workers, cap):
     fin = U.final()
     queries = [
         ("failure-is-visible", U.exists(lambda s: z3.And(s["pcd"] == ts.end_pcd, s["raised"] == 0)), "a callback raised in a worker but walk() returns normally"),
-        ("no-hang", U.exists(lambda s: z3.And(z3.Not(U.enabled(s, progress_only=True)), s["pcd"] != ts.end_pcd)), "a callback raised in a worker and walk() waits forever"),
+        ("no-hang", (lambda s: z3.And(z3.Not(U.enabled(s, progress_only=True)), s["pcd"] != ts.end_pcd))(U.final()), "a callback raised in a worker and walk() waits forever"),
     ]
     for qn, bad, what in queries:
         r, m, dt = U.check(bad)
@@ -217,9 +217,12 @@ def check(run):
     from vlib.core import run_parallel
     jobs = [(st.name, n_items, w) for st in STAGES if not only or any(o in st.name for o in only)
             for n_items in st.item_counts[run.tier] for w in C03.WORKERS[run.tier]]
-    run_parallel(run, __name__, "job_stage", jobs)
     plans = [(C01.S1, 2, 2), (C01.S3, 2, None)]
     if run.tier == "thorough":
         plans += [(C01.S2, 2, None), (C01.S1, 2, None), (C01.S2, 3, None)]
     wjobs = [(cfg.name, w, cap) for cfg, w, cap in plans if not only or any(o == "walk" or cfg.name.startswith(o) for o in only)]
-    run_parallel(run, __name__, "job_walk", wjobs)
+    run_parallel(run, __name__, "job_any", [("walk",) + j for j in wjobs] + [("stage",) + j for j in jobs], timeout_s=3000 if run.tier == "quick" else 20000)
+
+
+def job_any(run, kind, *args):
+    (job_walk if kind == "walk" else job_stage)(run, *args)
